@@ -47,9 +47,8 @@ theorem tickLegal_iff (s : HCache) (ev : List Name) :
     obtain ⟨e, he, h1, h2⟩ := h f hf
     exact ⟨_, ⟨e, he, rfl⟩, h1, h2⟩
 
-/-- two entries of the same field are the same entry -/
-theorem entry_unique {l : List IEntry} (hnd : (l.map (·.field)).Nodup) {a b : IEntry}
-    (ha : a ∈ l) (hb : b ∈ l) (hab : a.field = b.field) : a = b := by
+theorem unique_of_nodup_map {α β} (f : α → β) {l : List α} (hnd : (l.map f).Nodup) {a b : α}
+    (ha : a ∈ l) (hb : b ∈ l) (hab : f a = f b) : a = b := by
   induction l with
   | nil => cases ha
   | cons x t ih =>
@@ -63,6 +62,11 @@ theorem entry_unique {l : List IEntry} (hnd : (l.map (·.field)).Nodup) {a b : I
       cases hb with
       | head => exact absurd (List.mem_map.2 ⟨a, ha, hab⟩) hnd.1
       | tail _ hb => exact ih hnd.2 ha hb
+
+/-- two entries of the same field are the same entry -/
+theorem entry_unique {l : List IEntry} (hnd : (l.map (·.field)).Nodup) {a b : IEntry}
+    (ha : a ∈ l) (hb : b ∈ l) (hab : a.field = b.field) : a = b :=
+  unique_of_nodup_map (·.field) hnd ha hb hab
 
 /-- The invariant of reachable cache states. -/
 structure Inv (s : HCache) : Prop where
